@@ -67,7 +67,7 @@ func init() {
 	for _, c := range []struct {
 		class         string
 		before, after int
-	}{{"Function", 2, 0}, {"Function", 2, 1}, {"Function", 0, 2}, {"FunctionCode", 0, 2}, {"FunctionCode", 1, 1}, {"FunctionCode", 2, 0}, {"Builtin", 0, 0}, {"Target", 0, 0}, {"Recursion", 0, 0}} {
+	}{{"Function", 2, 0}, {"Function", 2, 1}, {"Function", 0, 2}, {"FunctionCode", 0, 2}, {"FunctionCode", 1, 1}, {"FunctionCode", 2, 0}, {"Builtin", 0, 0}, {"Builtin", 1, 0}, {"Builtin", 0, 1}, {"Iterable", 0, 1}, {"Iterable", 1, 0}, {"Target", 0, 0}, {"Recursion", 0, 0}} {
 		foreignPickles = append(foreignPickles, wrongShape(c.class, c.before, c.after))
 	}
 	foreignPickles = append(foreignPickles, append(sharedDAG(60), '.'))
